@@ -273,13 +273,8 @@ int TBox::OutsideBox(RCRVector x, RCTBox domain) {
     outs=0;
   if (ins_box==0 && ins_dom==1)
     outs=1;
-  if (ins_box==0 && ins_dom==0)
-    outs=2;
-  if (outs==999) {
-    // Something has gone wrong!
-    cout << "Error in OutsideBox, exiting\n";
-    exit(1);
-  }
+  if (ins_dom==0)
+    outs=2; // also when a box exceeds the domain by rounding and x lies in between
   return outs;
 }
 
